@@ -55,7 +55,7 @@ func cp(p []pstep, s pstep) []pstep { return append(append([]pstep{}, p...), s) 
 
 // sites lists the attribute occurrences of value v (of attribute a).
 func sites(d *dg.Design, a *dg.Attr, v *dg.Val, path []pstep, loc string, depth int, locOf func(string) string, out *[]site) {
-	if v == nil || v.K == "null" || depth > 4 {
+	if v == nil || v.K == "null" || depth > 9 {
 		return
 	}
 	bt, _ := d.Effective(a)
